@@ -371,6 +371,7 @@ fn liq_case(s: &Scen, rng: &mut Rng, stranger: Pubkey) -> Option<String> {
         }
     }
     let mut w = s.w.clone();
+    let mut lent_out = false;
     let (u, mut ai, li) = if !cands.is_empty() && rng.chance(3, 4) { *rng.pick(&cands) } else if rng.chance(1, 8) {
         (rng.below(s.users.len() as u64) as usize, rng.below(s.banks.len() as u64) as usize, rng.below(s.banks.len() as u64) as usize)
     } else {
@@ -380,6 +381,19 @@ fn liq_case(s: &Scen, rng: &mut Rng, stranger: Pubkey) -> Option<String> {
         let ai = rng.below(s.banks.len() as u64) as usize;
         let li = (ai + 1 + rng.below(s.banks.len() as u64 - 1) as usize) % s.banks.len();
         let us = &s.users[u];
+        // (one time in three a closely weighted pair, as e-mode, stable or LST pairs are: collateral counted at 97-98 %
+        // against debt at 100 %, so that a liquidation, which gives 5 % away, LOWERS the account's health)
+        let close_pair = rng.chance(1, 3);
+        if close_pair {
+            let mut bk = w.bank(&s.banks[ai].bank);
+            bk.config.asset_weight_init = I80F48::from_bits(ONE / 100 * 97).into();
+            bk.config.asset_weight_maint = I80F48::from_bits(ONE / 100 * 98).into();
+            w.set_bank(&s.banks[ai].bank, &bk);
+            let mut bk = w.bank(&s.banks[li].bank);
+            bk.config.liability_weight_init = I80F48::from_bits(ONE).into();
+            bk.config.liability_weight_maint = I80F48::from_bits(ONE).into();
+            w.set_bank(&s.banks[li].bank, &bk);
+        }
         // (someone else provides the liquidity to borrow)
         let other = &s.users[(u + 1) % s.users.len()];
         let _ = w.exec(&ix::deposit(&s.banks[li], other.acct, other.wallet, other.toks[li], 5_000_000_000_000, None));
@@ -390,6 +404,16 @@ fn liq_case(s: &Scen, rng: &mut Rng, stranger: Pubkey) -> Option<String> {
             let amt = 4_000_000_000_000u64 >> (2 * k);
             let r = w.exec(&ix::borrow(&s.banks[li], us.acct, us.wallet, us.toks[li], amt, w.remaining_for(&us.acct, &[s.banks[li].bank])));
             if r.is_ok() { break; }
+        }
+        // (half of the time the collateral bank is lent out too, by the other user against the liquidity they provided: the
+        // liquidatee's deposit then earns interest, so that time passing without a crank moves its health UP as well as down)
+        if close_pair || rng.chance(1, 3) {
+            lent_out = true;
+            for k in 0..12u32 {
+                let amt = 400_000_000_000u64 >> (2 * k);
+                let r = w.exec(&ix::borrow(&s.banks[ai], other.acct, other.wallet, other.toks[ai], amt, w.remaining_for(&other.acct, &[s.banks[ai].bank])));
+                if r.is_ok() { break; }
+            }
         }
         (u, ai, li)
     };
@@ -406,7 +430,10 @@ fn liq_case(s: &Scen, rng: &mut Rng, stranger: Pubkey) -> Option<String> {
         }
         w.set_marginfi_account(&le_key, &a);
     };
-    if rng.chance(2, 3) {
+    // (one time in four the clock moves on first, with no crank: the search below then sees the banks' STALE share values,
+    // as pulse_health does, while the liquidation itself must judge the account at the values accrued to now)
+    if lent_out || rng.chance(1, 4) { w.advance(*rng.pick(&[3600i64, 86400, 2_592_000, 31_536_000, 31_536_000])); }
+    if lent_out || rng.chance(2, 3) {
         let mut found = None;
         for step in 0..50 {
             let pm = 1000 - 20 * step;
@@ -422,7 +449,7 @@ fn liq_case(s: &Scen, rng: &mut Rng, stranger: Pubkey) -> Option<String> {
             }
         }
         if let Some(pm) = found {
-            shrink(&mut w, pm - *rng.pick(&[0i128, 0, 10, 50]));
+            shrink(&mut w, pm - if lent_out { 0 } else { *rng.pick(&[0i128, 0, 10, 50]) });
         }
     } else if rng.chance(1, 2) {
         shrink(&mut w, *rng.pick(&[100i128, 300, 500, 700, 900]));
